@@ -36,7 +36,8 @@ EXPLANATION = (
     "install, a multi-valued table, or re-pointing on uninstall), and the node-level install/uninstall requests "
     "delegate to the software manager; R13.5 every call of the node's bulk start-up routine (the method that starts all "
     "services and runs all applications) comes, on every path, after the store operating_state = ON, because Service.start and "
-    "Application.run refuse on a node that is not ON. NOT decided: the number of ticks a restart/install "
+    "Application.run refuse on a node that is not ON. R13.6 = C12's R12.5 (the node-power guard of the software base classes is exact) applied here. "
+    "NOT decided: the number of ticks a restart/install "
     "takes (counter arithmetic), conformance of arbitrary request sequences to a reference model (behavioural), and "
     "whether the handler reached past the gate does the right thing."
 )
